@@ -139,7 +139,12 @@ class ExcFlow:
             for n in ast.walk(tree):
                 if isinstance(n, (ast.FunctionDef, ast.AsyncFunctionDef)):
                     q = self._qual(n)
-                    self.funcs[(rel, q)] = n
+                    # the normal form of the function (new temporaries / constants spelled out, literal loops unrolled,
+                    # see normalise.py) - what a call may raise does not depend on how its operands are named
+                    try:
+                        self.funcs[(rel, q)] = repo._canon(rel, q, n) if '<' not in q else n
+                    except Exception:      # noqa: BLE001
+                        self.funcs[(rel, q)] = n
                     self.by_name.setdefault(n.name, []).append((rel, q))
         self.class_names = {n.name for tree in repo.files.values() for n in ast.walk(tree) if isinstance(n, ast.ClassDef)}
         # functions whose address is taken (stored in a list, passed as an argument): reachable through calls
